@@ -37,6 +37,7 @@ class OnePreemption:
         self.hold_expired = False  # the others could not finish while TA was held (they need a lock TA owns): k lies inside a critical section
         self.other_native = set()
         self.finished_native = set()
+        self.skip_native = set()  # kernel threads that do not belong to the run (harness watchers)
         self.codes = [c for c in perturb.discover_codes() if c.co_filename.endswith(("run_function_on_graph.py", "scheduler.py", "queue.py"))]
         self.pn = [c for c in self.codes if c.co_name == "process_node"]
         self.active = False
@@ -65,23 +66,41 @@ class OnePreemption:
             with self.cv:
                 self.ta_paused.set()
                 self.cv.notify_all()
-                parked_rounds = 0
+                import os as _os
                 import time as _t
 
+                me = threading.get_native_id()
+                skip = self.skip_native | {me}
                 end = _t.monotonic() + self.hold_timeout
-                while self.others_done < self.n_others and _t.monotonic() < end:
-                    self.cv.wait(0.003)
-                    if self.others_done >= self.n_others:
-                        break
-                    pending = self.other_native - self.finished_native
-                    # released early when every unfinished other worker is provably blocked (parked in an untimed futex wait =
-                    # waiting for a lock that TA holds): nothing more can happen while TA stays held
-                    if pending and all(quiesce.probe(t)[0] for t in pending):
-                        parked_rounds += 1
-                        if parked_rounds >= 3:
+                stable = 0
+                prev = None
+                # TA stays held until the REST of the process is quiescent: every other kernel thread (the other predecessors' workers,
+                # idle workers that picked up a successor TA has just published, the caller of run) is parked in an untimed futex wait,
+                # with unchanged context-switch counters in consecutive probes. So "everything that can happen while TA is preempted
+                # here" has happened - including a child of TA running to completion - or the others are blocked on a lock TA owns.
+                while _t.monotonic() < end:
+                    self.cv.wait(0.002)
+                    vec = []
+                    ok = True
+                    try:
+                        tids = [int(t) for t in _os.listdir("/proc/self/task")]
+                    except OSError:
+                        tids = []
+                    for t in tids:
+                        if t in skip:
+                            continue
+                        parked, cs = quiesce.probe(t)
+                        if not parked:
+                            ok = False
+                            break
+                        vec.append((t, cs))
+                    if ok and vec and vec == prev:
+                        stable += 1
+                        if stable >= 2:
                             break
                     else:
-                        parked_rounds = 0
+                        stable = 0
+                    prev = vec if ok else None
                 self.hold_expired = self.others_done < self.n_others
 
     def _ret(self, code, offset, retval):
@@ -210,7 +229,12 @@ def run_once(shape, a_index, k, W_extra, sched, seed):
 
     desc = {"seed": seed, "n": len(ir.nodes), "W": len(P) + W_extra, "sched": sched, "perturb": "none", "delays": "none"}
     with OP:
-        R = plainrun.execute(desc, pre=pre, post=post, record_args=False, ir=ir, before_run=lambda R_: holder.__setitem__("R", R_))
+        def before_run(R_):
+            holder["R"] = R_
+            if R_.hang_drv is not None and R_.hang_drv.thread is not None:
+                OP.skip_native.add(R_.hang_drv.thread.native_id)
+
+        R = plainrun.execute(desc, pre=pre, post=post, record_args=False, ir=ir, before_run=before_run)
     return R, OP, ir, P
 
 
